@@ -393,6 +393,15 @@ def check_gpx(case, tmp, fails):
                 if back is not None and len(back) != 1:
                     fails.append("%s: file of track %d holds %d tracks" % (what, i, len(back)))
                 break
+        # multi-step history: a CSV written AFTER the one-file-per-track export must still round-trip (the writer
+        # switches the process-wide timestamp print format and has to restore it on every path)
+        n += 1
+        if ObsTime.getPrintFormat() != tfmt:
+            fails.append("%s: the global ObsTime print format is %r after writeToGpx(oneFile=False), it was %r"
+                         % (what, ObsTime.getPrintFormat(), tfmt))
+        if tracks and not fails:
+            csv_round_trip(tracks[0], objs[0], srid, ",", 1, tfmt, (0, 1, 2, 3), os.path.join(tmp, "after_each.csv"),
+                           "csv written right after writeToGpx(oneFile=False), track=%r" % (objs[0],), fails)
     except (Exception, SystemExit) as e:
         fails.append("%s: writeToGpx raised %s" % (what, _exc(e)))
     return n
